@@ -2,8 +2,8 @@ SPECIFICATION Spec
 CONSTANTS
  HWM = 8
  Sizes = {1, 4, 7, 8, 9}
- MaxPub = 5
+ MaxPub = 3
  MaxCredit = 12
  Dev = {}
-INVARIANTS TapWellFormed Bounded NothingLost NoWithheld
+INVARIANTS Reach_Armed
 CHECK_DEADLOCK FALSE
